@@ -114,6 +114,20 @@ impl Subject for WTinySubj {
                         return vec![-7];
                     }
                 }
+                // Clone::clone_from into a cache that has moved on: afterwards it answers like the source
+                {
+                    let mut d = c.clone();
+                    let _ = d.put(TKey::new(u64::MAX - 7), TVal::new(7));
+                    d.clone_from(c);
+                    let (t1, _, _) = c.verif_parts();
+                    let (t2, _, _) = d.verif_parts();
+                    if (d.cap(), d.len(), d.window_cache_len(), d.main_cache_len()) != (c.cap(), c.len(), c.window_cache_len(), c.main_cache_len())
+                        || d.contains(&KQ(u64::MAX - 7))
+                        || t1.verif_state() != t2.verif_state()
+                    {
+                        return vec![-7];
+                    }
+                }
                 let old = std::mem::replace(c, c2);
                 let n = old.len() as u64;
                 let before = ledger_drain();
@@ -251,8 +265,15 @@ impl Subject for TinySubj {
             91 => {
                 let c = t.clone();
                 // same counters, and the same answers key by key (the key hasher is part of the object)
-                let same = c.verif_state() == t.verif_state()
+                let mut same = c.verif_state() == t.verif_state()
                     && (0..24u64).all(|k| c.estimate(&KQ(k)) == t.estimate(&KQ(k)) && c.contains(&KQ(k)) == t.contains(&KQ(k)));
+                // Clone::clone_from into an estimator that has moved on: afterwards it is the source again
+                let mut d = t.clone();
+                d.increment_hashed_key(0x9e37_79b9_7f4a_7c15);
+                d.increment_hashed_key(0x9e37_79b9_7f4a_7c15);
+                d.increment_hashed_key(3);
+                d.clone_from(t);
+                same &= d.verif_state() == t.verif_state();
                 *t = c;
                 if same {
                     vec![]
@@ -350,7 +371,12 @@ impl Subject for SampledSubj {
             120 => {
                 let nin = op[1] as usize;
                 let input: Vec<(u64, i64)> = (0..nin).map(|i| (op[2 + 2 * i] as u64, op[3 + 2 * i] as i64)).collect();
-                let out = s.fill_sample(input.clone());
+                // the vector handed over has spare capacity that varies with the call (a reused buffer, a
+                // `with_capacity` guess): what comes back must not depend on it
+                let spare = [0usize, 1, 3, 16, 64][(op.iter().map(|x| (*x & 0xffff) as usize).sum::<usize>()) % 5];
+                let mut handed: Vec<(u64, i64)> = Vec::with_capacity(nin + spare);
+                handed.extend(input.iter().cloned());
+                let out = s.fill_sample(handed);
                 let prefix_ok = out.len() >= input.len() && out[..input.len()] == input[..];
                 let app = if prefix_ok { &out[input.len()..] } else { &out[..] };
                 let mut rw: Ints = op[..2 + 2 * nin].to_vec();
